@@ -33,7 +33,14 @@ type reply struct {
 
 // evalCase runs one case in-process (inside the worker).
 func evalCase(c Case) reply {
-	root := run.Scratch("c19")
+	root := ""
+	if base := os.Getenv("VERIF_C19_SCRATCH"); base != "" {
+		// the parent owns (and removes) the scratch area, so nothing is left behind when this worker dies
+		root, _ = os.MkdirTemp(base, "case-")
+	}
+	if root == "" {
+		root = run.Scratch("c19")
+	}
 	defer os.RemoveAll(root)
 	dir := filepath.Join(root, "w")
 	var files map[string][]byte
@@ -58,10 +65,24 @@ func evalCase(c Case) reply {
 	os.MkdirAll(filepath.Join(dir, "sub"), 0o755)
 	i := 0
 	for n, d := range data {
-		if c.DataPresent == 1 || (c.DataPresent == 2 && n != "a.dat") {
+		if c.DataPresent == 1 || c.DataPresent == 3 || (c.DataPresent == 2 && n != "a.dat") {
 			fsx.WriteTree(dir, map[string][]byte{n: d})
 		}
 		i++
+	}
+	if c.DataPresent == 3 && c.Format == "par2" {
+		set := par2ref.NewSet(8, map[string][]byte{p2names[0]: p2data(0), p2names[1]: p2data(1)})
+		g := 0
+		for _, f := range set.Files {
+			d := append([]byte{}, f.Data...)
+			for o := 0; o < len(d); o += 8 {
+				if g == 0 || g == 2 {
+					d[o] ^= 0x5a
+				}
+				g++
+			}
+			fsx.WriteTree(dir, map[string][]byte{f.Name: d})
+		}
 	}
 	before, _ := fsx.Take(dir)
 	var ms0, ms1 runtime.MemStats
@@ -118,12 +139,17 @@ func evalCase(c Case) reply {
 			for _, d := range decls {
 				// the property is about the archive's own file hashes; how a non-ASCII or otherwise odd declared name is
 				// mapped to a path inside the directory is C15's business, so any declared entry with this length/MD5 counts
-				if d.Length == uint64(len(after[ch.Path].Data)) && d.MD5 == md5.Sum(after[ch.Path].Data) {
+				got := after[ch.Path].Data
+				h16 := md5.Sum(got)
+				if len(got) >= 16384 {
+					h16 = md5.Sum(got[:16384])
+				}
+				if d.Length == uint64(len(got)) && d.MD5 == md5.Sum(got) && (!d.Has16k || d.MD516k == h16) {
 					ok = true
 				}
 			}
 			if !ok {
-				msg = fmt.Sprintf("wrote %q (%d bytes) whose length/MD5 match no file entry the archive declares", ch.Path, len(after[ch.Path].Data))
+				msg = fmt.Sprintf("wrote %q (%d bytes) whose length/MD5/16k-MD5 match no file entry the archive declares", ch.Path, len(after[ch.Path].Data))
 				break
 			}
 		}
@@ -157,6 +183,7 @@ func workerMain() {
 }
 
 type worker struct {
+	scratch string
 	cmd    *exec.Cmd
 	in     io.WriteCloser
 	out    *bufio.Reader
@@ -164,11 +191,12 @@ type worker struct {
 }
 
 func startWorker() *worker {
+	scr := run.Scratch("c19w")
 	cmd := exec.Command(os.Args[0], "-test.run", "^TestWorker$")
-	cmd.Env = append(os.Environ(), "VERIF_C19_WORKER=1")
+	cmd.Env = append(os.Environ(), "VERIF_C19_WORKER=1", "VERIF_C19_SCRATCH="+scr)
 	in, _ := cmd.StdinPipe()
 	outp, _ := cmd.StdoutPipe()
-	w := &worker{cmd: cmd, in: in, out: bufio.NewReaderSize(outp, 1<<20), stderr: &bytes.Buffer{}}
+	w := &worker{scratch: scr, cmd: cmd, in: in, out: bufio.NewReaderSize(outp, 1<<20), stderr: &bytes.Buffer{}}
 	cmd.Stderr = w.stderr
 	if err := cmd.Start(); err != nil {
 		panic(err)
@@ -177,6 +205,7 @@ func startWorker() *worker {
 }
 
 func (w *worker) stop() {
+	defer os.RemoveAll(w.scratch)
 	w.in.Close()
 	done := make(chan struct{})
 	go func() { w.cmd.Wait(); close(done) }()
@@ -213,6 +242,7 @@ func (w *worker) ask(c Case) (r reply, died bool, why string) {
 	case x := <-ch:
 		if x.err != nil {
 			w.cmd.Wait()
+			os.RemoveAll(w.scratch)
 			return r, true, "worker died: " + tailStr(w.stderr.String())
 		}
 		json.Unmarshal(x.line, &r)
@@ -220,6 +250,7 @@ func (w *worker) ask(c Case) (r reply, died bool, why string) {
 	case <-time.After(25 * time.Second):
 		w.cmd.Process.Kill()
 		w.cmd.Wait()
+		os.RemoveAll(w.scratch)
 		return r, true, "timeout"
 	}
 }
@@ -492,6 +523,16 @@ func TestCheck(t *testing.T) {
 						}
 					}
 				}
+			}
+		}
+	}
+	// exponent sets whose lowest rows are a specification-singular pair for the two damaged slices (with spare blocks behind them)
+	for k := uint64(0); k < 3; k++ {
+		for _, dp := range []int{3, 0, 2} {
+			idx++
+			if cfg.Mine(idx) {
+				do(Case{Format: "par2", Muts: []Mut{{"exps", k}}, DataPresent: dp})
+				do(Case{Format: "par2", Muts: []Mut{{"exps", k}, {"dup:recv:1", 0}}, DataPresent: dp})
 			}
 		}
 	}
